@@ -486,6 +486,13 @@ func (c *c13Start) ext() (open string, fh []byte, runok bool) {
 		o, _ := c13Open("")
 		return o, c13Digest(c.hash), true
 	}
+	if c.rel {
+		// os/exec evaluates the relative Path relative to Cmd.Dir: the file that is checked and
+		// executed is <Dir>/f-<bin>, whose content is the OTHER binary's
+		other := map[string]string{"binA": "binB", "binB": "binA"}[c.bin]
+		fi := c13Info(other)
+		return fi.open, c13FH(c.hash, other, false), c13ExecWorks(other)
+	}
 	fi := c13Info(c.bin)
 	return fi.open, c13FH(c.hash, c.bin, false), c13ExecWorks(c.bin)
 }
@@ -495,7 +502,7 @@ func (c *c13Start) line() string {
 	l := fmt.Sprintf("C13.start cmd=%s rf=%s re=%s mux=%s secure=%s hash=%s bin=%s open=%s fh=%s sum=%s nilhash=%s runok=%s cls=%s",
 		b01(c.cmd), b01(c.rf), b01(c.re), b01(c.mux), b01(c.secure), c.hash, c.bin, open, hx(fh), hx(c.sum), b01(c.nilHash), b01(runok), c.cls)
 	if c.rel {
-		return "!" + l + " rel=1" // predicate-only: the model assumes checked file = executed file
+		return l + " rel=1"
 	}
 	return l
 }
@@ -725,6 +732,7 @@ func c13GenStarts(r *rng) []*c13Start {
 	// relative Cmd.Path + Cmd.Dir: Check reads ./f-binA here, os/exec runs <Dir>/f-binA
 	c13AltDir("binA")
 	add(&c13Start{cmd: true, secure: true, hash: "sha256", bin: "binA", sum: c13FH("sha256", "binA", false), cls: "relpath-dir", rel: true})
+	add(&c13Start{cmd: true, secure: true, hash: "sha256", bin: "binA", sum: c13FH("sha256", "binB", false), cls: "relpath-dir-match", rel: true})
 	return cs
 }
 
